@@ -78,6 +78,77 @@ def caller_snippet(arg):
     return "\n".join(L)
 
 
+def differing(rng, one, npop, types):
+    """[first, second] request: `one` and a relative of it in which a multiplicity, a member or the type is changed;
+    either of the two is requested first.  The fourth entry of the second request names the change (not used by the op)."""
+    re, pr, rtype = one
+    two = [list(re), list(pr), rtype]
+    how = rng.choice(["multiplicity+", "multiplicity+", "multiplicity-", "exchange", "add", "drop", "type"])
+    side = two[rng.randrange(2)]
+    if how == "multiplicity-":
+        rep = [x for x in set(side) if side.count(x) > 1]
+        if rep:
+            side.remove(rng.choice(rep))
+        else:
+            how = "multiplicity+"
+    if how == "multiplicity+":
+        side.insert(rng.randrange(len(side) + 1), rng.choice(side))
+    elif how == "exchange":
+        i = rng.randrange(len(side))
+        side[i] = rng.choice([x for x in range(npop) if x != side[i]])
+    elif how == "add":
+        new = [x for x in range(npop) if x not in side]
+        if new:
+            side.insert(rng.randrange(len(side) + 1), rng.choice(new))
+        else:
+            how = "type"
+    elif how == "drop":
+        if len(side) > 1:
+            del side[rng.randrange(len(side))]
+        else:
+            how = "type"
+    if how == "type":
+        two[2] = rng.choice([t for t in types if t != rtype])
+    pair = [[re, pr, rtype], two]
+    if rng.randrange(2):
+        pair.reverse()
+    pair[1] = pair[1] + [how]
+    return pair
+
+
+DIFFERS_WHAT = {
+    "refused": "the {which} of two different unnamed reactions ({how}) was refused",
+    "same-object": "two reactions that differ ({how}) are the same object {0!r}",
+    "compare-equal": "two reactions that differ ({how}) compare equal",
+    "same-canonical-form": "two reactions that differ ({how}) have the same canonical form",
+    "same-name": "two reactions that differ ({how}) have the same automatic name {0!r}",
+    "members": "the {which} of two different reactions ({how}) shows members / arity / type {0}; requested was {1}",
+    "canonical-form-size": "the canonical form of the {which} of two different reactions ({how}) has {0} reactants/products for a request of {1}",
+    "changed-by-other-request": "the {which} of two different reactions ({how}) shows {0} once the other exists; it was created as {1}",
+    "permutation-is-another-object": "the {which} of two different reactions ({how}), requested again with reversed arguments, is another object",
+}
+
+
+def differs_snippet(arg):
+    kind, specs, one, two, k = arg
+    if kind == "m":
+        return f"# harness op c11_reaction_differs {arg!r} (harness/impl/compare.py)"
+    return "\n".join([
+        "from dsdobjects.base_classes import DomainS, ComplexS, ReactionS",
+        "class Rxn(ReactionS): pass" if k else "Rxn = ReactionS",
+        "def dom(n):",
+        "    try: return DomainS(n, 5)",
+        "    except Exception: return DomainS(n)",
+        f"specs = {[[s[0], s[1]] for s in specs]!r}",
+        "X = [ComplexS([dom(x) if x != '+' else '+' for x in sq], list(st), name='X%d' % i) for i, (sq, st) in enumerate(specs)]",
+        f"r1 = Rxn([X[i] for i in {one[0]!r}], [X[i] for i in {one[1]!r}], {one[2]!r})",
+        f"r2 = Rxn([X[i] for i in {two[0]!r}], [X[i] for i in {two[1]!r}], {two[2]!r})",
+        "assert r1 is not r2 and r1 != r2 and r1.canonical_form != r2.canonical_form and r1.name != r2.name, (r1.name, r2.name)",
+        f"assert r1.arity == ({len(one[0])}, {len(one[1])}) and r2.arity == ({len(two[0])}, {len(two[1])}), (r1.arity, r2.arity)",
+        f"assert (len(r1.canonical_form[0]), len(r1.canonical_form[1])) == ({len(one[0])}, {len(one[1])})",
+        f"assert (len(r2.canonical_form[0]), len(r2.canonical_form[1])) == ({len(two[0])}, {len(two[1])})"])
+
+
 CALLER_WHAT = {
     "members": "right after the request the object lists {0}; the members of the request in canonical order are {1}",
     "size": "right after the request the size / arity is {0}; the request had {1}",
@@ -166,6 +237,16 @@ def run(ctx):
                 mem = rng.sample(range(6), rng.randrange(1, 5))
                 mcreqs.append(("c11_macro_caller_args", [pop, mem, rng.random() < 0.5, rng.randrange(2), rng.choice(FORMS),
                                                          [st for st in caller_steps(rng, 5) if st[1] != "request"]]))
+        # changing a member, a multiplicity or the type denotes a different object (direct statement, no model request):
+        # both reactions alive, either one requested first
+        dreqs = []
+        for pop, macs in pops:
+            for kind, specs, npop, n in (("c", pop, 6, 10 if quick else 80), ("m", macs, 4, 6 if quick else 50)):
+                for _ in range(n):
+                    rtype = rng.choice(types) if kind == "c" else "condensed"
+                    one = [[rng.randrange(npop) for _ in range(rng.randrange(1, 4))],
+                           [rng.randrange(npop) for _ in range(rng.randrange(1, 4))], rtype]
+                    dreqs.append(("c11_reaction_differs", [kind, specs] + differing(rng, one, npop, types + ["condensed"]) + [rng.randrange(2)]))
         for rq, r in zip(mcreqs, run_impl(mcreqs)):
             what = None
             if isinstance(r, Err):
@@ -180,7 +261,21 @@ def run(ctx):
                               "snippet": f"# harness op c11_macro_caller_args {rq[1]!r} (harness/impl/compare.py); in short: buf=[A,B]; m=MacrostateS(buf); buf.pop(); len(m)"})
         ctx.cov["correspondence"]["macrostate-caller-containers(impl)"] = {"cases": len(mcreqs)}
         okinds = {}
-        direct = run_impl(oreqs + creqs)          # one batch: large enough to be spread over several processes
+        direct = run_impl(oreqs + creqs + dreqs)  # one batch: large enough to be spread over several processes
+        dkinds = {}
+        for rq, r in zip(dreqs, direct[len(oreqs) + len(creqs):]):
+            dkinds[rq[1][-2][3]] = dkinds.get(rq[1][-2][3], 0) + 1
+            what = None
+            if isinstance(r, Err):
+                what = f"requesting two different unnamed reactions raised {r.kind}"
+            elif r:
+                n, tag_, got, want = r[0]
+                what = DIFFERS_WHAT[tag_].format(got, want, which="first" if n == 0 else "second", how=rq[1][-2][3])
+            if what:
+                a = rq[1]
+                found.append({"key": {"op": rq[0], "arg": a}, "input": [rq[0], a], "what": what,
+                              "snippet": differs_snippet(a)})
+        ctx.cov["correspondence"]["different-multisets-different-reactions(impl)"] = {"cases": len(dreqs), "by_change": dkinds}
         for rq, r in zip(oreqs, direct[:len(oreqs)]):
             what = None
             if isinstance(r, Err):
@@ -287,7 +382,8 @@ def run(ctx):
         ctx.add_eval(len(reqs), len(distinct), samples=[{"req": reqs[0], "impl": impl[0]}])
     ctx.cov["rule"] = ("populations of 6 distinct complexes / 4 macrostates; every subset size 1-4 in several permutations "
                        "(first request in one permutation, second in another, named by a member or unnamed), reactions with "
-                       "repeated members and shuffled argument lists, all types; first requests made with caller-owned lists, "
+                       "repeated members and shuffled argument lists, all types; pairs of reactions that differ in a multiplicity, a "
+                       "member or the type, either requested first; first requests made with caller-owned lists, "
                        "list subclasses, deques and tuples that the caller then clears, refills, extends, reorders or "
                        "re-uses for further requests; non-trivial = distinct member lists")
     if found and res["ok"] and not diffs:
